@@ -16,14 +16,24 @@
                silent (inside the header, inside a length, inside a body) "end" and "raise" are both allowed.
      Design    what RecordStreamReader does today: short header -> raise; fewer than LenSize length bytes ->
                end; short body -> raise (msgpack cannot unpack a truncated value).
-   TLC proves Design => Contract for every reachable disk.  Dev switches exist for sensitivity runs only. *)
+   TLC proves Design => Contract for every reachable disk.  Dev switches exist for sensitivity runs only.
+
+   Transient failures: a write call may also fail BEFORE any byte reaches the disk (EINTR, a full disk that is
+   freed again ...) while the application catches the error and carries on.  When that call is the length part
+   of a frame, the whole frame is absent from the disk and the stream stays well formed (action Transient; the
+   frame is kept in `layout` with lost = TRUE).  A lost DESCRIPTOR frame is never re-sent -- the packer has
+   already registered it -- so later records of that type are complete on disk but cannot be decoded; a lost
+   header makes nothing readable.  Frames carry the descriptor ids they define (DESC) or need (REC):
+   the contract then says such a record is never yielded (it would be decoded with some OTHER descriptor =
+   an altered record) and the reader raises instead of ending silently. *)
+
 EXTENDS Naturals, Sequences, FiniteSets, TLC
 
-CONSTANTS MaxFrames, LenSize, BodySizes, HdrBody, Dev
+CONSTANTS MaxFrames, LenSize, BodySizes, HdrBody, Dev, DescIds, MaxTransient
 
 Kinds == {"DESC", "REC"}
 
-VARIABLES layout,   \* frames whose write has begun, in order: [k |-> kind, len |-> body size]
+VARIABLES layout,   \* frames whose write has begun, in order: [k |-> kind, len |-> body size, ids |-> descriptor ids defined / needed, lost |-> BOOLEAN]
           disk,     \* number of bytes on disk
           pc,       \* "idle" | "len"  (length part of the last frame written, body still to come)
           dead      \* a write call failed: the writer never writes again
@@ -31,10 +41,21 @@ vars == <<layout, disk, pc, dead>>
 
 Init == layout = <<>> /\ disk = 0 /\ pc = "idle" /\ dead = FALSE
 
+\* descriptor ids whose DESC frame has been begun (whether or not it reached the disk): the packer considers them sent
+Sent == UNION {layout[i].ids : i \in {j \in DOMAIN layout : layout[j].k = "DESC"}}
+NLost == Cardinality({i \in DOMAIN layout : layout[i].lost})
+\* which frames the writer may begin next: the header first; a descriptor at most once; a record only after the
+\* descriptors it needs have been sent (C03)
+MayBegin(k, ids) == /\ (layout = <<>>) = (k = "HDR")
+                    /\ k = "HDR" => ids = {}
+                    /\ k = "DESC" => Cardinality(ids) = 1 /\ ids \cap Sent = {}
+                    /\ k = "REC" => ids # {} /\ ids \subseteq Sent
+
 \* the first frame of a stream is always the header (writeheader() runs before anything else is written)
-Begin(k, n) == /\ pc = "idle" /\ ~dead /\ Len(layout) < MaxFrames + 1
-               /\ (layout = <<>>) = (k = "HDR")
-               /\ layout' = Append(layout, [k |-> k, len |-> n])
+Begin(k, n, ids) ==
+               /\ pc = "idle" /\ ~dead /\ Len(layout) < MaxFrames + 1
+               /\ MayBegin(k, ids)
+               /\ layout' = Append(layout, [k |-> k, len |-> n, ids |-> ids, lost |-> FALSE])
                /\ \/ disk' = disk + LenSize /\ pc' = "len" /\ UNCHANGED dead          \* fp.write(length) ok
                   \/ \E j \in 0..(LenSize - 1) : disk' = disk + j /\ dead' = TRUE /\ UNCHANGED pc   \* fails after j bytes
 Body ==        /\ pc = "len" /\ ~dead
@@ -42,44 +63,72 @@ Body ==        /\ pc = "len" /\ ~dead
                   \/ disk' = disk + n /\ pc' = "idle" /\ UNCHANGED dead               \* fp.write(body) ok
                   \/ \E j \in 0..(n - 1) : disk' = disk + j /\ dead' = TRUE /\ UNCHANGED pc
                /\ UNCHANGED layout
-Next == (\E n \in BodySizes : Begin("DESC", n) \/ Begin("REC", n)) \/ Begin("HDR", HdrBody) \/ Body
+\* fp.write(length) raises with nothing written and the application carries on: the frame is simply absent
+Transient(k, n, ids) ==
+               /\ pc = "idle" /\ ~dead /\ Len(layout) < MaxFrames + 1 /\ NLost < MaxTransient
+               /\ MayBegin(k, ids)
+               /\ layout' = Append(layout, [k |-> k, len |-> n, ids |-> ids, lost |-> TRUE])
+               /\ UNCHANGED <<disk, pc, dead>>
+Next == \/ \E n \in BodySizes, ids \in SUBSET DescIds : Begin("DESC", n, ids) \/ Begin("REC", n, ids) \/ Transient("DESC", n, ids) \/ Transient("REC", n, ids)
+        \/ Begin("HDR", HdrBody, {}) \/ Transient("HDR", HdrBody, {})
+        \/ Body
 Spec == Init /\ [][Next]_vars
 
 \* ---------------- what is entirely on disk ----------------
 HdrLenOf(lay) == LenSize + lay[1].len        \* the header is the first frame
-RECURSIVE Walk(_, _, _, _)
-\* -> [y |-> number of complete REC frames, boundary |-> disk ends exactly at a frame boundary]
-Walk(lay, i, pos, cut) ==
-   IF i > Len(lay) THEN [y |-> 0, boundary |-> (pos = cut)]
+RECURSIVE Walk(_, _, _, _, _)
+\* -> [y |-> number of complete, decodable REC frames in front of the first undecodable one,
+\*     boundary |-> disk ends exactly at a frame boundary,
+\*     blocked |-> a complete REC frame is on disk whose descriptor never reached the disk]
+Walk(lay, i, pos, cut, defs) ==
+   IF i > Len(lay) THEN [y |-> 0, boundary |-> (pos = cut), blocked |-> FALSE]
+   ELSE IF lay[i].lost THEN Walk(lay, i + 1, pos, cut, defs)
    ELSE LET end == pos + LenSize + lay[i].len IN
         IF end <= cut
-        THEN LET r == Walk(lay, i + 1, end, cut) IN [y |-> r.y + (IF lay[i].k = "REC" THEN 1 ELSE 0), boundary |-> r.boundary]
-        ELSE [y |-> 0, boundary |-> (pos = cut)]
-Expected(lay, cut) == IF lay = <<>> \/ cut < HdrLenOf(lay) THEN [y |-> 0, boundary |-> FALSE] ELSE Walk(lay, 2, HdrLenOf(lay), cut)
+        THEN IF lay[i].k = "REC" /\ ~(lay[i].ids \subseteq defs)
+             THEN [y |-> 0, boundary |-> FALSE, blocked |-> TRUE]
+             ELSE LET r == Walk(lay, i + 1, end, cut, IF lay[i].k = "DESC" THEN defs \cup lay[i].ids ELSE defs)
+                  IN [y |-> r.y + (IF lay[i].k = "REC" THEN 1 ELSE 0), boundary |-> r.boundary, blocked |-> r.blocked]
+        ELSE [y |-> 0, boundary |-> (pos = cut), blocked |-> FALSE]
+\* complete REC frames on disk when the header is missing (nothing can be read: the reader must not end silently)
+RECURSIVE AnyRec(_, _, _, _)
+AnyRec(lay, i, pos, cut) == IF i > Len(lay) THEN FALSE
+                            ELSE IF lay[i].lost THEN AnyRec(lay, i + 1, pos, cut)
+                            ELSE LET end == pos + LenSize + lay[i].len IN
+                                 end <= cut /\ (lay[i].k = "REC" \/ AnyRec(lay, i + 1, end, cut))
+Expected(lay, cut) == IF lay = <<>> THEN [y |-> 0, boundary |-> FALSE, blocked |-> FALSE]
+                      ELSE IF lay[1].lost THEN [y |-> 0, boundary |-> FALSE, blocked |-> AnyRec(lay, 2, 0, cut)]
+                      ELSE IF cut < HdrLenOf(lay) THEN [y |-> 0, boundary |-> FALSE, blocked |-> FALSE]
+                      ELSE Walk(lay, 2, HdrLenOf(lay), cut, {})
 
 \* ---------------- the reader as built ----------------
-RECURSIVE DWalk(_, _, _, _)
+RECURSIVE DWalk(_, _, _, _, _)
 \* -> [y |-> records yielded, how |-> "end" | "raise"]
-DWalk(lay, i, pos, cut) ==
-   IF cut - pos < LenSize
+DWalk(lay, i, pos, cut, defs) ==
+   IF i <= Len(lay) /\ lay[i].lost THEN DWalk(lay, i + 1, pos, cut, defs)
+   ELSE IF cut - pos < LenSize
    THEN [y |-> 0, how |-> IF "ShortLenRaises" \in Dev /\ cut > pos THEN "raise" ELSE IF "BoundaryRaises" \in Dev THEN "raise" ELSE "end"]
    ELSE IF i > Len(lay) THEN [y |-> 0, how |-> "end"]       \* unreachable: bytes always belong to a begun frame
    ELSE IF pos + LenSize + lay[i].len > cut
         THEN (IF "TolerantBody" \in Dev /\ lay[i].k = "REC" THEN [y |-> 1, how |-> "end"] ELSE [y |-> 0, how |-> "raise"])
-        ELSE LET r == DWalk(lay, i + 1, pos + LenSize + lay[i].len, cut)
-             IN IF "SkipAfterDesc" \in Dev /\ lay[i].k = "DESC" /\ i < Len(lay) /\ pos + LenSize + lay[i].len + LenSize + lay[i + 1].len <= cut
-                THEN DWalk(lay, i + 2, pos + LenSize + lay[i].len + LenSize + lay[i + 1].len, cut)
+        ELSE IF lay[i].k = "REC" /\ ~(lay[i].ids \subseteq defs) /\ "LostDescTolerated" \notin Dev
+             THEN [y |-> 0, how |-> "raise"]                 \* RecordDescriptorNotFound
+        ELSE LET nd == IF lay[i].k = "DESC" THEN defs \cup lay[i].ids ELSE defs
+                 r == DWalk(lay, i + 1, pos + LenSize + lay[i].len, cut, nd)
+             IN IF "SkipAfterDesc" \in Dev /\ lay[i].k = "DESC" /\ i < Len(lay) /\ ~lay[i + 1].lost /\ pos + LenSize + lay[i].len + LenSize + lay[i + 1].len <= cut
+                THEN DWalk(lay, i + 2, pos + LenSize + lay[i].len + LenSize + lay[i + 1].len, cut, nd)
                 ELSE [y |-> r.y + (IF lay[i].k = "REC" THEN 1 ELSE 0), how |-> r.how]
-DesignRead(lay, cut) == IF lay = <<>> \/ cut < HdrLenOf(lay) THEN [y |-> 0, how |-> "raise"] ELSE DWalk(lay, 2, HdrLenOf(lay), cut)
+DesignRead(lay, cut) == IF lay = <<>> \/ lay[1].lost \/ cut < HdrLenOf(lay) THEN [y |-> 0, how |-> "raise"] ELSE DWalk(lay, 2, HdrLenOf(lay), cut, {})
 
 \* ---------------- C04 ----------------
 ContractOK(lay, cut, y, how) == LET e == Expected(lay, cut) IN
                                   /\ y = e.y
                                   /\ how \in {"end", "raise"}
-                                  /\ (e.boundary => how = "end")
+                                  /\ ((e.boundary /\ ~e.blocked) => how = "end")
+                                  /\ (e.blocked => how = "raise")
 IntactPrefix == LET r == DesignRead(layout, disk) IN ContractOK(layout, disk, r.y, r.how)
 \* a writer that was never interrupted leaves a stream that reads completely and cleanly
-CompleteReadsAll == (pc = "idle" /\ ~dead /\ layout # <<>>) =>
+CompleteReadsAll == (pc = "idle" /\ ~dead /\ layout # <<>> /\ NLost = 0) =>
                       LET r == DesignRead(layout, disk) IN
                         r.how = "end" /\ r.y = Cardinality({i \in DOMAIN layout : layout[i].k = "REC"})
 TypeOK == disk \in Nat /\ pc \in {"idle", "len"} /\ dead \in BOOLEAN
